@@ -199,12 +199,15 @@ structure Feeds (δ P σ : Type) where
   proj : σ → List Nat → σ := fun v _ => v
   none : σ
 
+/-- what a source carries, read from the statement as written -/
+def readP {σ : Type} (F : Feeds δ P σ) (v : σ) : PAttr P → σ
+  | .arg _ k path => F.argV k path
+  | .cap _ p path => F.capV p path
+  | .out _ path => F.proj v path
+
 def algP {σ : Type} (F : Feeds δ P σ) : Option δ → List (σ × PAttr P) → σ
   | Option.none, _ => F.none
-  | some f, ins => F.fn f (ins.map fun q => match q.2 with
-      | .arg _ k path => F.argV k path
-      | .cap _ p path => F.capV p path
-      | .out _ path => F.proj q.1 path)
+  | some f, ins => F.fn f (ins.map fun q => readP F q.1 q.2)
 
 /-- what a source carries, read from the key attributes as coded -/
 def readC {σ : Type} (F : Feeds δ P σ) (caps : List P) (v : σ) (a : SAttr) : σ :=
